@@ -100,6 +100,13 @@ def make_cells(gi, tier):
         assume(_valid_inputs(gi, [X]))
         e = gi.ident()
         Me = gi.toM(e)
+        if tuple(gi.G.matrix_shape) != Me.shape or gi.G.n_param != e.shape[0]:
+            raise Violation("%s: declared matrix_shape %s / n_param %d differ from the actual matrix %s / identity length %d" % (
+                nm, tuple(gi.G.matrix_shape), gi.G.n_param, Me.shape, e.shape[0]))
+        Ma = gi.algM(np.zeros(gi.na))
+        if tuple(gi.alg.matrix_shape) != Ma.shape or Ma.shape != Me.shape:
+            raise Violation("%s: algebra matrix_shape %s / actual %s differ from the group's matrix shape %s" % (
+                nm, tuple(gi.alg.matrix_shape), Ma.shape, Me.shape))
         L.close(Me, np.eye(Me.shape[0]), "%s: M(identity) vs I" % nm, identity_param=e.tolist())
         MX = gi.toM(X)
         tol = L.mat_tol(gi, MX)
